@@ -110,6 +110,15 @@ def run(chk):
         chk.lemmas.append(ob)
         if ob.result != 'discharged': chk.violation('callsite#' + ob.clause.split(' calls')[0], 'obligation fails: ' + ob.clause, {'obligation': ob.clause}, no_input=True)
     sh = shapes()
+    # a custom type declared together with an extension-definition id: the library adds the `extensions` entry itself, AFTER the base constructor has run
+    from stix2 import registry as _reg
+    EXTN = 'extension-definition--7c2e4a9b-1d3f-4b5a-8c6d-9e0f1a2b3c4d'
+    if 'x-vf-c08-ext' not in _reg.STIX2_OBJ_MAPS['2.1']['objects']:
+        stix2.v21.CustomObject('x-vf-c08-ext', [('x_p', stix2.properties.StringProperty()), ('name', stix2.properties.StringProperty())], extension_name=EXTN)(type('_C08X', (object,), {}))
+    XC = _reg.STIX2_OBJ_MAPS['2.1']['objects']['x-vf-c08-ext']
+    full = json.loads(XC(id='x-vf-c08-ext--' + G.UUID, created=G.T1, modified=G.T1, x_p='v', name='').serialize())
+    sh['custom21 (declared with extension_name)'] = full
+    BUILD = {'custom21 (declared with extension_name)': {k: v for k, v in full.items() if k != 'extensions'}}          # what a caller hands over: without the entry the library adds
 
     def cases():
         for name, d in sh.items():
@@ -128,19 +137,23 @@ def run(chk):
 
     def check(case):
         name, sel, want, v = case
-        d = sh[name]
+        d = sh[name]; db = BUILD.get(name, d)          # db: what a caller hands to the constructor (without entries the library adds itself)
         gm = [{'marking_ref': TLP, 'selectors': [sel]}]
+        premarked = lambda: stix2.parse(dict(copy.deepcopy(db), granular_markings=[{'marking_ref': TLP, 'selectors': ['type']}]))       # selectors were validated once already, at construction
         syntactically_ok = bool(stix2.properties.SELECTOR_REGEX.match(sel))
         routes = {
-            'parse': lambda: stix2.parse(dict(copy.deepcopy(d), granular_markings=gm)),
-            'add_markings(object)': lambda: MK.add_markings(stix2.parse(copy.deepcopy(d)), TLP, [sel]),
+            'parse': lambda: stix2.parse(dict(copy.deepcopy(d), granular_markings=gm)),          # (the marked content as a whole: with the entry the library would add)
+            'add_markings(object)': lambda: MK.add_markings(stix2.parse(copy.deepcopy(db)), TLP, [sel]),
             'add_markings(dict)': lambda: MK.add_markings(copy.deepcopy(d), TLP, [sel]),
-            'get_markings(unmarked object)': lambda: MK.get_markings(stix2.parse(copy.deepcopy(d)), [sel]),
-            'is_marked(unmarked object)': lambda: MK.is_marked(stix2.parse(copy.deepcopy(d)), TLP, [sel]),
+            'get_markings(unmarked object)': lambda: MK.get_markings(stix2.parse(copy.deepcopy(db)), [sel]),
+            'is_marked(unmarked object)': lambda: MK.is_marked(stix2.parse(copy.deepcopy(db)), TLP, [sel]),
             'is_marked(unmarked dict)': lambda: MK.is_marked(copy.deepcopy(d), TLP, [sel]),
-            'get_markings(marked object)': lambda: MK.get_markings(MK.add_markings(stix2.parse(copy.deepcopy(d)), TLP, ['type']), [sel]),
+            'get_markings(marked object)': lambda: MK.get_markings(MK.add_markings(stix2.parse(copy.deepcopy(db)), TLP, ['type']), [sel]),
         }
-        if hasattr(stix2.parse(copy.deepcopy(d)), 'get_markings'): routes['method get_markings'] = lambda: stix2.parse(copy.deepcopy(d)).get_markings([sel])
+        routes['get_markings(object built with a marking)'] = lambda: MK.get_markings(premarked(), [sel])
+        routes['is_marked(object built with a marking)'] = lambda: MK.is_marked(premarked(), TLP, [sel])
+        if d['type'] != 'file': routes['add_markings(object built with a marking)'] = lambda: MK.add_markings(premarked(), TLP, [sel])
+        if hasattr(stix2.parse(copy.deepcopy(db)), 'get_markings'): routes['method get_markings'] = lambda: stix2.parse(copy.deepcopy(db)).get_markings([sel])
         if not want:
             # a selector addressing nothing stays invalid wherever it stands in a list of selectors
             good = 'type'
@@ -148,13 +161,13 @@ def run(chk):
             routes['parse, before a valid selector'] = lambda: stix2.parse(dict(copy.deepcopy(d), granular_markings=[{'marking_ref': TLP, 'selectors': [sel, good]}]))
             routes['add_markings(dict), after a valid selector'] = lambda: MK.add_markings(copy.deepcopy(d), TLP, [good, sel])
             routes['is_marked(unmarked dict), after a valid selector'] = lambda: MK.is_marked(copy.deepcopy(d), TLP, [good, sel])
-            routes['get_markings(unmarked object), last of three'] = lambda: MK.get_markings(stix2.parse(copy.deepcopy(d)), [good, 'id', sel])
+            routes['get_markings(unmarked object), last of three'] = lambda: MK.get_markings(stix2.parse(copy.deepcopy(db)), [good, 'id', sel])
         if want:
-            routes['remove after add'] = lambda: MK.remove_markings(MK.add_markings(stix2.parse(copy.deepcopy(d)), TLP, [sel]), TLP, [sel])
-            routes['set_markings'] = lambda: MK.set_markings(MK.add_markings(stix2.parse(copy.deepcopy(d)), TLP, [sel]), 'marking-definition--34098fce-860f-48ae-8e50-ebd3cc5e41da', [sel])
+            routes['remove after add'] = lambda: MK.remove_markings(MK.add_markings(stix2.parse(copy.deepcopy(db)), TLP, [sel]), TLP, [sel])
+            routes['set_markings'] = lambda: MK.set_markings(MK.add_markings(stix2.parse(copy.deepcopy(db)), TLP, [sel]), 'marking-definition--34098fce-860f-48ae-8e50-ebd3cc5e41da', [sel])
         for rname, fn in routes.items():
             if rname.startswith('parse') and not syntactically_ok: continue          # syntactically illegal selectors are refused by the property cleaner with another error
-            if d['type'] == 'file' and rname not in ('parse', 'get_markings(unmarked object)', 'is_marked(unmarked object)', 'is_marked(unmarked dict)', 'parse, after a valid selector', 'parse, before a valid selector',
+            if d['type'] == 'file' and rname not in ('parse', 'get_markings(unmarked object)', 'get_markings(object built with a marking)', 'is_marked(object built with a marking)', 'is_marked(unmarked object)', 'is_marked(unmarked dict)', 'parse, after a valid selector', 'parse, before a valid selector',
                                                      'is_marked(unmarked dict), after a valid selector', 'get_markings(unmarked object), last of three'): continue   # SCOs are not versionable
             got = accepted(fn)
             if isinstance(got, str) and got.startswith('escape:'):
@@ -165,4 +178,4 @@ def run(chk):
             if not want and got is True:
                 return (f'accept#{rname}', f'{name}: selector {sel!r} addresses nothing but is accepted by {rname}', {'selector': sel})
     chk.bounded('selectors: every path and near misses x every entry point', list(cases()), check, classify=lambda c: (c[0], c[1]),
-                bound='10 object shapes (2.0 and 2.1; SDO, SRO, SCO with extension, language content and observed-data with one- and two-character dictionary keys) x every path x near misses x 10 entry points; near misses also at every position of a selector list')
+                bound='11 object shapes (2.0 and 2.1; SDO, SRO, SCO with extension, language content and observed-data with one- and two-character dictionary keys, a custom type declared with extension_name) x every path x near misses x 10 entry points; near misses also at every position of a selector list')
